@@ -18,6 +18,9 @@ def main():
             summ = summ[:227] + '…'
         runs = m.get('checks', {}).get('runs', {})
         cells = []
+        if m.get('obsolete_since'):
+            runs = {}
+            cells.append('obsolete since /repo %s: %s' % (m['obsolete_since'], m.get('obsolete_note', '')[:200]))
         for k, v in runs.items():
             vio = [l for l in v['lines'] if l.startswith('VIOLATION')]
             if not vio:
